@@ -52,6 +52,12 @@ type vfc29RunState struct {
 	checks   int
 }
 
+func (st *vfc29RunState) isViolated() bool {
+	st.mu.Lock()
+	defer st.mu.Unlock()
+	return st.violated
+}
+
 var vfc29Views = []struct {
 	name  string
 	delay time.Duration
@@ -132,6 +138,13 @@ func (e *vfc29Env) check(ctx context.Context, core *vfcfbCore, st *vfc29RunState
 		st.mu.Unlock()
 		if already {
 			return
+		}
+		// the run is decided: stop it (a compactor that keeps recompacting would otherwise run into the time limit)
+		core.mu.Lock()
+		stop := core.onStop
+		core.mu.Unlock()
+		if stop != nil {
+			defer stop()
 		}
 		wit := map[string]any{"set": e.set.describe(), "delete_delay": e.opts.DeleteDelay.String(), "lister": e.opts.Lister, "phase": phase, "crash_at_mutation": crashAt,
 			"view": v.name, "after_operation": after, "selected_blocks": ids, "missing_samples": missing, "example_missing": ex, "invented_samples": invented, "example_invented": exInv,
@@ -222,7 +235,7 @@ func TestVF_C29(t *testing.T) {
 	r := vfkit.Start(t, "C29")
 	defer r.Finish()
 	r.Rule("case = one generated set of 4..8 tiny real TSDB blocks (aligned ranges; two replica streams with a replica label, default and penalty merge; time-shifted overlap with vertical compaction; " +
-		"a no-compact marked block; an empty block; two groups) x delete delay {0,48h} x lister; a real compactor (cmd/thanos wiring: BucketCompactor, planner, grouper, LeveledCompactor, Syncer.GarbageCollect, BlocksCleaner, " +
+		"a plan of four blocks whose Compactor hands back TWO result blocks (each half compacted by the real LeveledCompactor); an old block that reports tombstones and is compacted on its own; a no-compact marked block; an empty block; two groups) x delete delay {0,48h} x lister; a real compactor (cmd/thanos wiring: BucketCompactor, planner, grouper, LeveledCompactor, Syncer.GarbageCollect, BlocksCleaner, " +
 		"BestEffortCleanAbortedPartialUploads) runs cycles to quiescence; a crash-free run yields the bucket-changing operations, the bucket content after each, and the compactor's own reads; enumerated faults: " +
 		"(1) CRASH after every bucket-changing operation k (fresh compactor + fresh directory on the content left behind; for every 8th k, thorough all, produced live by fail-stop of the bucket + cancellation with the working directory kept; " +
 		"thorough crashes the restarted run once more); (2) TRANSIENT failure of every bucket-changing operation k, everything later works: variant 'lost' (not applied, error) and variant 'applied' (applied, but reported as failed) - " +
@@ -230,7 +243,7 @@ func TestVF_C29(t *testing.T) {
 		"after a transient fault the cycle finishes or returns its error, then a fresh compactor runs to quiescence; oracle after EVERY applied mutating operation of every run: in both store-gateway views " +
 		"(real MetaFetcher + IgnoreDeletionMarkFilter + DefaultDeduplicateFilter; deletion marks not yet effective / all effective) the complete selected blocks hold every sample of the original blocks and no other sample; " +
 		"at quiescence with all marks effective every sample is held exactly once; distinct = (set, fault kind, fault position); non-trivial = the fault was injected")
-	nsets := r.N(5, 42)
+	nsets := r.N(5, 45)
 	r.Assume("a crash is modelled as fail-stop of the bucket at a mutating operation (every later operation fails) plus cancellation; real SIGKILL of a child process is not used")
 	r.Assume("single faults: one crash (thorough: two) or one transient failure per history; after a cycle that returned an error the compactor is restarted as a fresh process")
 	r.Assume("store gateway wiring is mirrored from cmd/thanos/store.go; replica labels are ignored when comparing samples iff the compactor is configured to deduplicate on them")
@@ -243,7 +256,7 @@ func TestVF_C29(t *testing.T) {
 		}
 		rng := r.Rand(c)
 		set := vfcrigGenSet(rng, c)
-		opts := vfcrigOpts{DeleteDelay: []time.Duration{48 * time.Hour, 0}[(c+c/9)%2], Lister: vfkit.Pick(rng, []string{"concurrent", "recursive"})} // every kind of set meets both delays over the 9-cycle of kinds
+		opts := vfcrigOpts{DeleteDelay: []time.Duration{48 * time.Hour, 0}[(c%9+c/9)%2], Lister: vfkit.Pick(rng, []string{"concurrent", "recursive"})} // every kind of set meets both delays over the 9-cycle of kinds
 		core0 := vfcfbNew()
 		tSet := time.Now()
 		vfcrigBuild(ctx, t, core0.view("setup", false), set)
@@ -302,6 +315,9 @@ func TestVF_C29(t *testing.T) {
 		dir, _ := os.MkdirTemp(scratch, "cf")
 		_, quiescent, err := env.runToQuiescence(ctx, core, dir)
 		_ = os.RemoveAll(dir)
+		if st.isViolated() {
+			continue // reported; the remaining runs of this set would repeat it
+		}
 		if err != nil {
 			r.Inconclusive(fmt.Sprintf("crash-free run failed on set %s: %v", set.Name, err))
 			continue
@@ -343,6 +359,8 @@ func TestVF_C29(t *testing.T) {
 				st.mu.Unlock()
 				crashed, quiescent, err := env.runToQuiescence(ctx, core, dir)
 				switch {
+				case st.isViolated():
+					return
 				case err != nil:
 					r.Inconclusive(fmt.Sprintf("restart after crash point %d failed on set %s: %v", k, set.Name, err))
 					return
@@ -389,6 +407,7 @@ func TestVF_C29(t *testing.T) {
 						_, quiescent, err := env.runToQuiescence(ctx, core, dir)
 						hit := core.transientHit()
 						switch {
+						case st.isViolated():
 						case hit == nil:
 							r.Count("transient_fault_not_reached", 1)
 							if quiescent {
@@ -424,6 +443,10 @@ func TestVF_C29(t *testing.T) {
 					core, st := newRun(snap, "before-crash", k)
 					core.failStopMut = k
 					crashed, _, err := env.runToQuiescence(ctx, core, dir)
+					if st.isViolated() {
+						_ = os.RemoveAll(dir)
+						continue
+					}
 					if err != nil && !crashed {
 						r.Inconclusive(fmt.Sprintf("run towards crash point %d failed on set %s: %v", k, set.Name, err))
 						_ = os.RemoveAll(dir)
